@@ -17,6 +17,7 @@ type Val struct {
 	Fn   *FnVal     // engine-level function value (closure / function constant)
 	Addr string     // spec evaluation: struct value located at this address (lazy)
 	Guard string    // address of the mutex guarding the field this value was loaded from
+	Under *Val      // interface values built by MakeInterface: the concrete value (with its Go type)
 }
 
 // Ptr describes pointers the engine tracks outside SMT.
@@ -157,7 +158,7 @@ func (g *Globals) strLit(s string) string {
 	if n, ok := g.strLits[s]; ok {
 		return n
 	}
-	n := fmt.Sprintf("str!%d", len(g.strLits))
+	n := fmt.Sprintf("strlit!%d", len(g.strLits))
 	if s == "" {
 		n = "str!empty"
 	}
